@@ -50,62 +50,85 @@ Definition try_string (q : Z) (r : str) : option str :=
 Definition is_bracket (c : Z) : bool := (c =? 40) || (c =? 41) || (c =? 91) || (c =? 93).
 Definition closer (c : Z) : Z := if c =? 40 then 41 else 93.
 
-(* the inner loop of parse_expr: expr3_re.search from the current position until the bracket that was opened is closed.
-   depth = counter - 1.  Only brackets of the opening kind are counted; brackets of the other kind and string literals
-   are matched and skipped; a quote that starts no complete literal is skipped as an ordinary character. None = ValueError. *)
+(* expr3_re.search(s, pos): the next token from the current position on -- a bracket character (Some c) or a complete string
+   literal (None) -- and the text after it.  A quote that starts no complete literal is skipped as an ordinary character.
+   None = no token left. *)
+Fixpoint next_tok (s : str) : option (option Z * str) :=
+  match s with
+  | [] => None
+  | c :: r =>
+      if is_bracket c then Some (Some c, r)
+      else if (c =? 39) || (c =? 34) then
+        match try_string c r with
+        | Some r' => Some (None, r')
+        | None => next_tok r
+        end
+      else next_tok r
+  end.
+
+(* the inner loop of parse_expr: tokens are taken until the bracket that was opened is closed.  depth = counter - 1.  Only
+   brackets of the opening kind are counted; brackets of the other kind and string literals are matched and skipped.
+   None = ValueError (no token left). *)
 Fixpoint scan_br (fuel : nat) (opn cls : Z) (depth : nat) (s : str) : option str :=
   match fuel with
   | O => None
   | S f =>
-      match s with
-      | [] => None
-      | c :: r =>
-          if is_bracket c then
-            if c =? opn then scan_br f opn cls (S depth) r
-            else if c =? cls then match depth with O => Some r | S d => scan_br f opn cls d r end
-            else scan_br f opn cls depth r
-          else if (c =? 39) || (c =? 34) then
-            match try_string c r with
-            | Some r' => scan_br f opn cls depth r'
-            | None => scan_br f opn cls depth r
-            end
+      match next_tok s with
+      | None => None
+      | Some (Some c, r) =>
+          if c =? opn then scan_br f opn cls (S depth) r
+          else if c =? cls then match depth with O => Some r | S d => scan_br f opn cls d r end
           else scan_br f opn cls depth r
+      | Some (None, r) => scan_br f opn cls depth r
       end
   end.
 
-(* the outer loop (expr2_re): after an identifier or a closing bracket, optional white space and then
-   ;  (explicit end, consumed)   .identifier   ( ... )   [ ... ]  ; anything else ends the expression in front of the white space.
-   Result: the text after the expression. *)
+(* expr1_re.match(s, pos): group 1 = identifier (position after it), group 2 = an opening parenthesis *)
+Definition head1 (s : str) : option (nat * str) :=
+  match s with
+  | [] => None
+  | c :: r => if is_id_start c then Some (1%nat, skip_w r) else if c =? 40 then Some (2%nat, r) else None
+  end.
+
+(* expr2_re.match(s, pos): optional white space and then  ;  (group 1)   .identifier  (group 2)   ( or [  (group 3) *)
+Inductive trailer_t : Type := TrSemi (rest : str) | TrAttr (rest : str) | TrOpen (c : Z) (rest : str).
+Definition trailer (s : str) : option trailer_t :=
+  match skip_sp s with
+  | c :: r =>
+      if c =? 59 then Some (TrSemi r)
+      else if c =? 46 then
+        match skip_sp r with
+        | d :: v => if is_id_start d then Some (TrAttr (skip_w v)) else None
+        | [] => None
+        end
+      else if (c =? 40) || (c =? 91) then Some (TrOpen c r)
+      else None
+  | [] => None
+  end.
+
+(* the outer loop: trailers are taken while expr2_re matches; a semicolon ends the expression explicitly (and is consumed);
+   when nothing matches the expression ends in front of the white space.  Result: the text after the expression. *)
 Fixpoint tails (fuel : nat) (s : str) : option str :=
   match fuel with
   | O => None
   | S f =>
-      match skip_sp s with
-      | c :: r =>
-          if c =? 59 then Some r
-          else if c =? 46 then
-            match skip_sp r with
-            | d :: v => if is_id_start d then tails f (skip_w v) else Some s
-            | [] => Some s
-            end
-          else if (c =? 40) || (c =? 91) then
-            match scan_br (length r) c (closer c) 0 r with
-            | Some rest => tails f rest
-            | None => None
-            end
-          else Some s
-      | [] => Some s
+      match trailer s with
+      | None => Some s
+      | Some (TrSemi r) => Some r
+      | Some (TrAttr r) => tails f r
+      | Some (TrOpen c r) =>
+          match scan_br (length r) c (closer c) 0 r with
+          | Some rest => tails f rest
+          | None => None
+          end
       end
   end.
 
 (* parse_expr(s, pos) for s = the text from pos on: the text after the expression; None = ValueError *)
 Definition parse_expr_rest (s : str) : option str :=
-  match s with
-  | [] => None
-  | c :: r =>
-      if is_id_start c then tails (S (length s)) (skip_w r)
-      else if c =? 40 then tails (S (length s)) s
-      else None
+  match head1 s with
+  | None => None
+  | Some (g, r) => if Nat.eqb g 1 then tails (S (length s)) r else tails (S (length s)) s     (* group 2: pos is not advanced *)
   end.
 
 (* the expression text itself: s[start:pos] *)
